@@ -25,6 +25,22 @@ func (ex *Exec) intrinsic(fn *ssa.Function, args []Value, fr *Frame, pos token.P
 		return nil, false
 	}
 	full := fn.String()
+	if strings.HasPrefix(full, "maps.Clone[") || full == "maps.clone" {
+		m, _ := args[0].(*MapObj)
+		if iv, ok := args[0].(IfaceV); ok {
+			m, _ = iv.v.(*MapObj)
+			if m == nil {
+				return iv, true
+			}
+			ex.mapCounter++
+			return IfaceV{typ: iv.typ, v: &MapObj{typ: m.typ, entries: append([]MapEntry{}, m.entries...), id: ex.mapCounter}}, true
+		}
+		if m == nil {
+			return (*MapObj)(nil), true
+		}
+		ex.mapCounter++
+		return &MapObj{typ: m.typ, entries: append([]MapEntry{}, m.entries...), id: ex.mapCounter}, true
+	}
 	if h, ok := intrinsicTable[full]; ok {
 		ex.stubsHit[full]++
 		return h(ex, args, fr, pos), true
